@@ -819,6 +819,11 @@ func (e *Engine) typeNum(n uint64, kinds uint64) uint64 {
 	if e.f4Active() {
 		return n % kinds
 	}
+	if n%13 == 7 {
+		// type numbers at the boundaries of the CBOR integer widths (the type tables compare and sort ENCODED type information)
+		big := []uint64{23, 24, 255, 256, 65535, 65536, 1<<32 - 1, 1 << 32, 1<<64 - 1}
+		return big[n/13%uint64(len(big))]
+	}
 	return n % 48
 }
 
